@@ -56,6 +56,10 @@ REVERTS = [
     ('revert-F12-constant-cast-to-partition-type', ['C05', 'C13'], 'fastparquet/api.py',
      "                if not _number_vs_numeric(val, partition_meta.get(cat)):\n                    val = val_to_num(val, meta=partition_meta.get(cat))\n",
      "                val = val_to_num(val, meta=partition_meta.get(cat))\n"),
+    ('revert-F13-int96-raw-view', ['C01'], 'fastparquet/writer.py',
+     "        stamps = data.values.astype('M8[ns]').view('int64')\n", "        stamps = data.values.view('int64')\n"),
+    ('revert-F14-nat-not-restored', ['C01'], 'fastparquet/writer.py',
+     "            if factor != 1:\n                # scaling must not move the NaT sentinel\n                out[values == nat] = nat\n", ""),
 ]
 
 # functions whose twins are run per property (module, qualname)
